@@ -199,8 +199,9 @@ class Rejection(Sampler):
             dtype = nbatch.dtype
 
             if node == self.discrepancy_name:
-                # Initialize the distances to inf
-                samples[node] = np.ones(shape, dtype=dtype) * np.inf
+                # Initialize the distances to nan: sorted last (also after simulated draws
+                # whose discrepancy is inf) and never accepted by a threshold
+                samples[node] = np.ones(shape, dtype=dtype) * np.nan
             else:
                 samples[node] = np.empty(shape, dtype=dtype)
 
